@@ -61,8 +61,10 @@ class TrainingThread(BackgroundThread):
     @override
     def on_paused(self) -> None:
         """Handle thread pause event."""
-        super().on_paused()
+        # Run the user hooks first: the paused flag set by `super().on_paused()`
+        # tells the control thread that this thread is quiescent.
         self._trainers.on_paused()
+        super().on_paused()
 
     @override
     def on_resumed(self) -> None:
